@@ -2,6 +2,7 @@ CONSTANTS
   R = 24
   RT = 10
   WMax = 10
+  Broken = FALSE
   Gen = TRUE
 SPECIFICATION Spec
 INVARIANTS ThinCountsDown ThinErrorRange ThinErrIsCross ThinStepOK ThinDistOK ThinEndOK ThickRemBound ThickPrefixOK ThickEndOK ThickW1IsThin
